@@ -39,7 +39,7 @@ def shards(tier, seed):
     out.append({"name": "cudasim", "threads": 1, "timeout": budget * 4 + 300,
                 "env": {"NUMBA_ENABLE_CUDASIM": "1"},
                 "params": {"seed": seed, "shard": 100, "n": ncuda, "nmax": 1500,
-                           "budget_s": budget, "backends": ["cuda"], "cuda": True}})
+                           "budget_s": budget * 3, "backends": ["cuda"], "cuda": True}})
     return out
 
 
